@@ -32,3 +32,18 @@ Theorem cancel_reaches_descendants_same_mutex_tree4 :
   explore true tree4 [0; 1] [[0; 0]; [1; 2]; [1; 3]] 3 9 = true.
 Proof. exact same_mutex_all_schedules_tree4. Qed.
 Print Assumptions cancel_reaches_descendants_same_mutex_tree4.
+
+(* EXHAUSTIVE over all interleavings (checked closed sets, Lib/Explore.v) of four scenarios of the repaired protocol — the witness'
+   shape, the other list order, a three-level tree with two binders, cancels at two levels racing with a bind: at quiescence every
+   registered context beneath a context whose cancel call won is cancelled and nothing else is; before quiescence some thread
+   can always step (no deadlock on the two mutexes).  The protocol as found fails the same check (two_mutexes_fail_exploration). *)
+From OTV Require Import Lib.Explore CtxExplore.
+Theorem cancel_reaches_descendants_all_interleavings : forall s c,
+  In s ctx_scenarios -> reach (cstep true (s_infos s)) (s_init s) c -> ctx_good true (s_infos s) c = true.
+Proof. exact ctx_all_interleavings. Qed.
+Print Assumptions cancel_reaches_descendants_all_interleavings.
+
+Theorem protocol_as_found_fails_exploration :
+  explore_all (cstep false (s_infos S_witness)) ccfg_dec (ctx_good false (s_infos S_witness)) (s_init S_witness) 60000 = false.
+Proof. exact two_mutexes_fail_exploration. Qed.
+Print Assumptions protocol_as_found_fails_exploration.
